@@ -111,10 +111,23 @@ def build(rng, base=None):
         desc["k"] = k
         out = []
         tit = [i for i in prot if rl[i].key[4] in ("ASP", "GLU", "HIS", "LYS", "ARG", "TYR", "CYS")]
+        # models that all have the same number of atoms but lack different residues of one type
+        equal_size = None
+        if rng.random() < 0.2:
+            by_type = {}
+            for i in prot:
+                by_type.setdefault((rl[i].key[4], len(rl[i].atoms)), []).append(i)
+            pools = [v for v in by_type.values() if len(v) >= k]
+            if pools:
+                equal_size = rng.sample(rng.choice(pools), k)
+                desc["events"].append("different-residue-of-equal-size-missing-in-each-model")
         for m in range(1, k + 1):
             out.append(pdbio.raw("MODEL     %4d" % m))
             kill_res, mutate, kill_atoms = set(), set(), 0.0
             ev = rng.random()
+            if equal_size is not None:
+                ev = 1.0
+                kill_res.add(equal_size[m - 1])
             if ev < 0.25 and tit:
                 mutate.add(rng.choice(tit))
                 desc["events"].append("mutant-in-model-%d-of-%d" % (m, k))
